@@ -274,7 +274,7 @@ func batchSizeClass(n int) string {
 var batchSizes = []int{0, 1, 2, 3, 4, 5, 6, 7, 8, 9, 31, 32, 33, 62, 63, 64, 65, 66, 67, 68, 69, 70, 126, 127, 128, 129, 130, 131, 132, 133, 191, 192, 193, 194, 200}
 
 var badKinds = []string{"wrong-msg", "flip-R", "flip-S", "flip-key", "S+L", "so-key", "so-R", "undecodable-key", "undecodable-R",
-	"short-key", "long-key", "nil-key", "short-sig", "long-sig", "nil-sig", "empty-sig", "topbits-S", "zip-only-smallkey", "zip-only-R", "S=L-smallkey", "wrong-prehash-len"}
+	"short-key", "long-key", "nil-key", "short-sig", "long-sig", "long-sig-zeropad", "nil-sig", "empty-sig", "topbits-S", "zip-only-smallkey", "zip-only-R", "S=L-smallkey", "wrong-prehash-len"}
 
 // entry factory: a few model-signed honest triples per batch variant are
 // recycled (signing with the model costs ~1 ms).
@@ -363,6 +363,10 @@ func (p *entryPool) badEntry(kind string) gen.Triple {
 		t.Sig = t.Sig[:1+rng.Intn(63)]
 	case "long-sig":
 		t.Sig = append(t.Sig, gen.RandBytes(rng, 1+rng.Intn(10))...)
+	case "long-sig-zeropad":
+		// the first 64 bytes are a valid signature, the surplus is zero: the
+		// scalar half read as a longer little-endian string has the same value
+		t.Sig = append(t.Sig, make([]byte, 1+rng.Intn(32))...)
 	case "nil-sig":
 		t.Sig = nil
 	case "empty-sig":
